@@ -366,10 +366,70 @@ def e2e_case(rec, n, steps, seed):
         rec.violation("C17:e2e:real-runner-differs-from-deterministic-runner", f"{dk[:6]}", {"part": "e2e", "n": n, "steps": steps, "seed": seed})
 
 
+def _real_multi_child(pin):
+    """Real scheduler + real runner with several workers; every job a worker executes leaves one line in jobs.log."""
+    import functools
+    import logging
+
+    from infretis.bin import internalrun
+    from infretis.core import tis
+
+    logging.disable(logging.WARNING)
+    if pin:
+        # the process may run on one core only (small machine, taskset, a batch system's CPU binding): fewer cores than workers
+        os.sched_setaffinity(0, {sorted(os.sched_getaffinity(0))[0]})
+    orig = tis.run_md
+
+    @functools.wraps(orig)
+    def run_md(md_items):
+        fd = os.open("jobs.log", os.O_WRONLY | os.O_APPEND | os.O_CREAT)
+        os.write(fd, b"job\n")
+        os.close(fd)
+        return orig(md_items)
+
+    tis.run_md = run_md
+    import infretis.setup as isetup
+
+    if getattr(isetup, "run_md", None) is orig:
+        isetup.run_md = run_md
+    internalrun("infretis.toml")
+    return True
+
+
+def e2e_multi_case(rec, n, W, steps, seed, pin):
+    moves = ["sh"] + ["wf" if i % 2 else "sh" for i in range(n - 1)]
+    spec = simdrv.lattice_spec(n=n, moves=moves, workers=W, steps=steps, seed=seed, maxlength=200)
+    d = simdrv.make_rundir(spec)
+    replay = {"part": "e2e-multi", "n": n, "W": W, "steps": steps, "seed": seed, "pin": pin}
+    try:
+        try:
+            isolate.run_in_fork(_real_multi_child, (pin,), cwd=d, timeout=300)
+        except isolate.ChildTimeout:
+            rec.case(key=[n, W, steps, seed, pin], nontrivial=True, classes=["e2e-real-runner:several-workers"])
+            rec.violation("C17:e2e:real-run-does-not-end", f"n={n} W={W} steps={steps} pinned={pin}", replay)
+            return
+        cfg = simdrv.read_restart(d)
+        jobs = len(open(os.path.join(d, "jobs.log")).read().split()) if os.path.exists(os.path.join(d, "jobs.log")) else 0
+    finally:
+        isolate.rmscratch(d)
+    rec.case(key=[n, W, steps, seed, pin], nontrivial=True, classes=["e2e-real-runner:several-workers"] + (["e2e-real-runner:fewer-cores-than-workers"] if pin else []),
+             sample={"n": n, "workers": W, "steps": steps, "pinned_to_one_core": pin, "jobs_executed": jobs})
+    if cfg is None or cfg["current"]["cstep"] != steps:
+        rec.violation("C17:e2e:step-counter", f"{None if cfg is None else cfg['current']['cstep']} != {steps} (W={W}, pinned={pin})", replay)
+        return
+    if jobs != steps:
+        rec.violation("C17:e2e:jobs-executed-differ-from-requested-moves", f"{jobs} jobs executed by the workers for {steps} steps (W={W}, pinned to one core: {pin})", replay)
+    if cfg["current"]["locked"]:
+        rec.violation("C17:e2e:finished-run-lists-jobs-in-flight", f"locked={cfg['current']['locked']} (W={W}, pinned to one core: {pin})", replay)
+
+
 def _e2e_worker(job):
-    pid, n, steps, seed = job
+    pid, n, steps, seed = job[:4]
     rec = Rec(pid)
-    e2e_case(rec, n, steps, seed)
+    if len(job) > 4:
+        e2e_multi_case(rec, n, job[4], steps, seed, job[5])
+    else:
+        e2e_case(rec, n, steps, seed)
     return rec
 
 
@@ -401,6 +461,8 @@ def run(ctx):
     run_property(ctx, "runner", runner_cases, body_runner, ctx.pick(64, 600), shards=ctx.procs, shrink=not ctx.quick)
     if not part or part == "e2e":
         jobs = [(ctx.pid, n, s, derive_seed(ctx.seed, "e2e", n, s) % 1000) for n, s in ([(3, 6), (4, 8)] if ctx.quick else [(3, 6), (4, 8), (5, 12), (3, 15), (4, 20), (5, 9)])]
+        jobs += [(ctx.pid, n, st_, derive_seed(ctx.seed, "e2em", n, st_) % 1000, W, pin) for n, st_, W, pin in
+                 ([(4, 8, 3, True), (4, 7, 2, False)] if ctx.quick else [(4, 8, 3, True), (4, 7, 2, False), (5, 11, 4, True), (5, 9, 2, True), (3, 6, 2, False), (5, 13, 3, False)])]
         for r in pmap(ctx, _e2e_worker, jobs):
             ctx.merge(r)
 
@@ -415,5 +477,7 @@ def replay(ctx, data):
             body_runner(ctx, data["case"])
         except Violation as v:
             ctx.violation(v.signature, v.message, data)
+    elif data["part"] == "e2e-multi":
+        e2e_multi_case(ctx, data["n"], data["W"], data["steps"], data["seed"], data["pin"])
     elif data["part"] == "e2e":
         e2e_case(ctx, data["n"], data["steps"], data["seed"])
